@@ -690,3 +690,128 @@ def variants(world, tier="quick", only=None):
     if only:
         out = [v for v in out if any(o in v.name for o in only)]
     return out
+
+
+# ---------------------------------------------------------------------------
+# PolarityCNFizer's own traversal (keys are (formula, polarity) pairs): the two step functions
+# ---------------------------------------------------------------------------
+PCNF = "pysmt.rewritings.PolarityCNFizer"
+Res11 = z3.DeclareSort("PolarityResult")
+
+
+class PolarityStepVariant(Variant):
+    """_push_with_children_to_stack / _compute_node_result of PolarityCNFizer on an implication a -> b in polarity pol (children
+    (a, -pol), (b, pol)), with `pat` saying which of (a,-pol), (b,pol), (f,pol) are memoised; the table also holds the SAME
+    formulas in the OTHER polarity, which must not count as memoised:
+      push     the node goes back on the work list marked expanded, followed by exactly its unmemoised child occurrences;
+               the table is untouched
+      compute  a memoised (f, pol) is not recomputed; otherwise the callback runs once with the memoised results of the
+               child occurrences in order and its result is stored under (f, pol) - nothing else changes"""
+    prop_ids = ("C11", "C20")
+
+    def __init__(self, world, method, pat, pol):
+        self.world, self.method, self.pat, self.pol = world, method, pat, pol
+        self.qualname = PCNF + "." + method
+        self.name = "polarity:%s[memo %s/pol=%s]" % (method, format(pat, "03b"), pol)
+
+    def setup(self, ex):
+        W = self.world
+        env = core.make_env(ex, W)
+        f = z3.Const("formula", Node)
+        W.touch(ex, f)
+        ex.assume(S.op(f) == S.IMPLIES)
+        W.learn(ex, f, op=S.IMPLIES, k=2)
+        ex.assume(S.type_of(f) == S.BoolT)
+        self.f = f
+        a, b = S.arg(f, S.K(0)), S.arg(f, S.K(1))
+        ex.assume(z3.And(a != f, b != f, a != b))        # (a -> a would make the two polarities of one child both needed: a third shape, not generated)
+        p, n = self.pol, (not self.pol)
+        self.occ = [(a, n), (b, p)]
+        self.res = {}
+        entries = []
+        # the other polarity of every formula involved is in the table: a key is the PAIR
+        for i, (x, q) in enumerate(self.occ + [(f, p)]):
+            entries.append([(x, (not q)), z3.Const("result_in_the_other_polarity%d" % i, Res11)])
+        for i, (x, q) in enumerate(self.occ):
+            if self.pat >> i & 1:
+                self.res[i] = z3.Const("child%d_result" % i, Res11)
+                entries.append([(x, q), self.res[i]])
+        if self.pat >> 2 & 1:
+            self.res["f"] = z3.Const("node_result", Res11)
+            entries.append([(f, p), self.res["f"]])
+        self.memo0 = [list(e) for e in entries]
+        self.stack0 = [(False, z3.Const("pending_node", Node), True)]
+        self.called = []
+        v = self
+
+        def callback(exx, a_, kw):
+            v.called.append((a_[0] if a_ else None, kw.get("args"), kw.get("pol")))
+            return z3.Const("fresh_result", Res11)
+        self.w = Obj(PCNF, {"env": env, "mgr": env.fields["_formula_manager"], "memoization": DictVal(entries), "stack": list(self.stack0),
+                            "functions": {S.IMPLIES: Builtin("walk_implies", callback)}, "_introduced_variables": DictVal()}, tag="cnfizer")
+        fi = W.repo.method(PCNF, self.method)
+        return W.wrap_func(fi, fi.module, bound=self.w), [f], {"pol": self.pol}
+
+    def same_memo(self, ex, items, want):
+        if len(items) != len(want):
+            return z3.BoolVal(False)
+        cs = []
+        for (k1, v1), (k2, v2) in zip(items, want):
+            c = BI._eq(self.world, ex, k1, k2)
+            cs.append(c if is_z3(c) else z3.BoolVal(bool(c)))
+            cs.append(v1 == v2)
+        return z3.And(cs) if cs else z3.BoolVal(True)
+
+    def check(self, ex, outcome):
+        kind, r = outcome
+        if kind == "raise":
+            return [("no-exception", z3.BoolVal(False))]
+        W = self.world
+        memo, stack = self.w.fields["memoization"].items, self.w.fields["stack"]
+        if self.method == "_push_with_children_to_stack":
+            want = list(self.stack0) + [(True, self.f, self.pol)] + [(False, x, q) for i, (x, q) in enumerate(self.occ) if not (self.pat >> i & 1)]
+            ok = len(stack) == len(want) and all(len(s_) == 3 and s_[0] == w_[0] for s_, w_ in zip(stack, want))
+            goals = [("pushes-the-node-and-exactly-its-unmemoised-child-occurrences",
+                      z3.And([z3.And(s_[1] == w_[1], (s_[2] if is_z3(s_[2]) else z3.BoolVal(bool(s_[2]))) == z3.BoolVal(w_[2])) for s_, w_ in zip(stack, want)])
+                      if ok else z3.BoolVal(False))]
+            goals.append(("table-untouched", self.same_memo(ex, memo, self.memo0)))
+            return goals
+        # _compute_node_result
+        goals = [("work-list-untouched", z3.BoolVal(len(stack) == len(self.stack0)))]
+        if self.pat >> 2 & 1:
+            goals.append(("memoised-occurrence-not-recomputed", z3.BoolVal(len(self.called) == 0)))
+            goals.append(("table-untouched", self.same_memo(ex, memo, self.memo0)))
+            return goals
+        goals.append(("callback-runs-exactly-once", z3.BoolVal(len(self.called) == 1)))
+        if len(self.called) == 1:
+            n_, args, pol = self.called[0]
+            goals.append(("callback-gets-the-node-and-its-polarity", z3.And(n_ == self.f, (pol if is_z3(pol) else z3.BoolVal(bool(pol))) == z3.BoolVal(self.pol))
+                          if is_node(n_) else z3.BoolVal(False)))
+            want = [self.res.get(i) for i in range(2)]
+            ok = isinstance(args, list) and len(args) == 2 and all(w_ is not None for w_ in want)
+            goals.append(("callback-gets-the-results-of-the-child-occurrences-in-their-polarity",
+                          z3.And([x_ == w_ for x_, w_ in zip(args, want)]) if ok else z3.BoolVal(False)))
+        ok = len(memo) == len(self.memo0) + 1
+        if ok:
+            k_, v_ = memo[-1]
+            kk = BI._eq(W, ex, k_, (self.f, self.pol))
+            goals.append(("stores-exactly-the-entry-of-this-occurrence",
+                          z3.And(self.same_memo(ex, memo[:-1], self.memo0), kk if is_z3(kk) else z3.BoolVal(bool(kk)), v_ == z3.Const("fresh_result", Res11))))
+        else:
+            goals.append(("stores-exactly-the-entry-of-this-occurrence", z3.BoolVal(False)))
+        return goals
+
+
+_base_variants11e = variants
+
+
+def variants(world, tier="quick", only=None):
+    out = _base_variants11e(world, tier, None)
+    for pol in (True, False):
+        for pat in range(4):
+            out.append(PolarityStepVariant(world, "_push_with_children_to_stack", pat, pol))
+        for pat in (3, 7):
+            out.append(PolarityStepVariant(world, "_compute_node_result", pat, pol))
+    if only:
+        out = [v for v in out if any(o in v.name for o in only)]
+    return out
